@@ -170,12 +170,29 @@ pub(crate) fn restore_repository<S: IndexedTree>(
 pub(crate) fn collect_and_prepare<S: IndexedFull>(
     repo: &Repository<S>,
     opts: RestoreOptions,
-    mut node_streamer: impl Iterator<Item = RusticResult<(PathBuf, Node)>>,
+    node_streamer: impl Iterator<Item = RusticResult<(PathBuf, Node)>>,
     dest: &LocalDestination,
     dry_run: bool,
 ) -> RusticResult<RestorePlan> {
     let p = repo.progress_spinner("collecting file information...");
     let dest_path = dest.path("");
+
+    // Never restore to a path which can leave the destination: node names come from the repository and may be
+    // `..`, absolute or otherwise not a plain file name.
+    let mut node_streamer = node_streamer.map(|item| {
+        let (path, node) = item?;
+        if path
+            .components()
+            .any(|c| !matches!(c, std::path::Component::Normal(_)))
+        {
+            return Err(RusticError::new(
+                ErrorKind::InvalidInput,
+                "The snapshot contains the path `{path}` which is not a plain relative path. Refusing to restore it.",
+            )
+            .attach_context("path", path.display().to_string()));
+        }
+        Ok((path, node))
+    });
 
     let mut stats = RestoreStats::default();
     let mut restore_infos = RestorePlan::default();
